@@ -48,11 +48,12 @@ def describe_exc(e):
     return 'harness: %r\n%s' % (e, traceback.format_exc()[-1500:])
 
 
-TIMING = re.compile(r'alive|Timeout|timed out|did not finish|did not return|within \d+ s|gave up|waiting|still open \d+ s', re.I)
+TIMING = re.compile(r'alive|Timeout|timed out|did not finish|did not return|within \d+ s|gave up|waiting|still open \d+ s|raised|failed:', re.I)
 
 
 def timing_verdict(v):
-    """a verdict that depends on real time on real threads (it counts only if it reproduces; a data mismatch counts at once)"""
+    """a verdict that may depend on real time on real threads - a wait that ran out, or an exception at one side, which is
+    also how a timeout at the *other* side shows (it counts only if it reproduces; a data mismatch counts at once)"""
     return bool(v) and bool(TIMING.search(v))
 
 
